@@ -18,7 +18,7 @@ class Violation(Exception):
 
 
 class Step:
-    __slots__ = ("op", "info", "trace", "exc", "pre_model")
+    __slots__ = ("op", "info", "trace", "exc", "pre_model", "pre_defined")
 
 
 PROPAGATING = ("setv", "sete", "inpl", "setc", "regf")
@@ -41,6 +41,7 @@ class Exec:
     def step(self, op, fault=None, want_pre=False):
         """Returns Step or None when the model rejects the op (skipped)."""
         pre = self.model.clone() if want_pre else None
+        pre_defined = (len(op) > 1 and isinstance(op[1], tuple) and op[1] in self.model.defs)
         try:
             info = model_step(self.model, op, self.g_restricted)
         except ModelReject:
@@ -51,6 +52,7 @@ class Exec:
             raise exc
         st = Step()
         st.op, st.info, st.trace, st.exc, st.pre_model = op, info, trace, exc, pre
+        st.pre_defined = pre_defined
         self.nstep += 1
         self.count("op:" + op[0])
         return st
@@ -70,14 +72,14 @@ class Exec:
                             g_cyclic_trig=gc, n_bad=len(bad), first=bad[0][0])
 
     # ---- C02 oracle ----------------------------------------------------------
-    def executed_tasks(self, st):
+    def executed_tasks(self, st, world=None, trace=None):
         """Attribute the trace of one update to task executions.
 
         Returns (initial_write_ok, [taskid...], stray) where stray lists writes that belong to no task."""
         m = self.model
-        w = self.world
+        w = world or self.world
         op = st.op
-        trace = st.trace
+        trace = st.trace if trace is None else trace
         assigned = op[1] if op[0] in ("setv", "sete", "inpl", "setc") else None
         i0 = 0
         init_ok = True
